@@ -27,9 +27,33 @@ class M:
         self.obj = names[1]
         self.lineno = names[2] if len(names) > 2 else None
         self.fn = fn
+        # single-assignment locals that only NAME a state component or a pure test are substituted; a use is accepted only while
+        # the component has not been written since the local was bound (otherwise the local and the attribute differ: fail closed)
+        self.aliases = {}        # name -> (expression text, components it reads, versions at binding time)
+        self.version = {'current': 0, 'mod': 0, 'pmod': 0, 'stack': 0}
+        self.pending_pop = {}    # name bound to self._stack.pop(): -> versions/reads at binding time
+        self.reads = 0
+
+    DEPS = {'KCurrent': 'current', 'KCurrentMod': 'mod', 'KObjParentMod': 'pmod'}
+
+    def deps_of(self, text):
+        return {v for k, v in self.DEPS.items() if k in text}
+
+    def bump(self, *comps):
+        for c in comps:
+            self.version[c] += 1
 
     def expr(self, e):
         s = ast.unparse(e)
+        if isinstance(e, ast.Name) and e.id in self.aliases:
+            text, deps, ver = self.aliases[e.id]
+            if any(self.version[d] != ver[d] for d in deps):
+                bad('local %r is read after the state it names was written' % e.id, e)
+            return text
+        if isinstance(e, ast.Name) and e.id in self.pending_pop:
+            bad('the popped value is used other than by `self.current = <it>`', e)
+        if s in ('self.current',):
+            self.reads += 1
         if isinstance(e, ast.Constant) and e.value is None:
             return 'KNone'
         if s == self.obj:
@@ -64,13 +88,35 @@ class M:
     def assign(self, tgt, val):
         t = ast.unparse(tgt)
         if t == 'self.current':
-            if ast.unparse(val) == 'self._stack.pop()' if not isinstance(val, str) else False:
+            if not isinstance(val, str) and ast.unparse(val) == 'self._stack.pop()':
+                self.bump('current', 'stack')
                 return 'KSetCurrentPop'
-            return 'KSetCurrent (%s)' % (val if isinstance(val, str) else self.expr(val))
+            if not isinstance(val, str) and isinstance(val, ast.Name) and val.id in self.pending_pop:
+                ver, reads = self.pending_pop.pop(val.id)
+                if ver != self.version or reads != self.reads:
+                    bad('state read or written between `x = self._stack.pop()` and `self.current = x`', tgt)
+                self.bump('current', 'stack')
+                return 'KSetCurrentPop'
+            out = 'KSetCurrent (%s)' % (val if isinstance(val, str) else self.expr(val))
+            self.bump('current')
+            return out
         if t == 'self.currentMod':
-            return 'KSetCurrentMod (%s)' % (val if isinstance(val, str) else self.expr(val))
+            out = 'KSetCurrentMod (%s)' % (val if isinstance(val, str) else self.expr(val))
+            self.bump('mod')
+            return out
         if t == '%s.parentMod' % self.obj:
-            return 'KSetObjParentMod (%s)' % (val if isinstance(val, str) else self.expr(val))
+            out = 'KSetObjParentMod (%s)' % (val if isinstance(val, str) else self.expr(val))
+            self.bump('pmod')
+            return out
+        if isinstance(tgt, ast.Name) and not isinstance(val, str):
+            if tgt.id in self.aliases or tgt.id in self.pending_pop or tgt.id in (self.obj, self.lineno, 'self'):
+                bad('a local is bound twice', tgt)
+            if ast.unparse(val) == 'self._stack.pop()':
+                self.pending_pop[tgt.id] = (dict(self.version), self.reads)
+                return None
+            text = self.expr(val)
+            self.aliases[tgt.id] = (text, self.deps_of(text), dict(self.version))
+            return None
         bad('assignment target', tgt)
 
     def stmt(self, s):
@@ -84,6 +130,8 @@ class M:
                 self.expr(s.test)           # must still be an expression of the language (no effect)
                 return None
             return 'KIf (%s) (%s) (%s)' % (self.expr(s.test), th, el)
+        if isinstance(s, ast.AnnAssign) and s.value is not None:
+            s = ast.copy_location(ast.Assign(targets=[s.target], value=s.value), s)
         if isinstance(s, ast.Assign):
             # a = b = v : Python evaluates v once and assigns left to right
             v = s.value
@@ -99,8 +147,11 @@ class M:
             return r
         if isinstance(s, ast.Expr) and isinstance(s.value, ast.Call):
             c = ast.unparse(s.value)
-            if c == 'self._stack.append(self.current)':
-                return 'KAppendCurrent'
+            if isinstance(s.value.func, ast.Attribute) and ast.unparse(s.value.func) == 'self._stack.append' and len(s.value.args) == 1:
+                if self.expr(s.value.args[0]) == 'KCurrent':
+                    self.bump('stack')
+                    return 'KAppendCurrent'
+                bad('value appended to the stack', s)
             if self.lineno and c == '%s.setLineNumber(%s)' % (self.obj, self.lineno):
                 return None
         bad('statement', s)
@@ -119,6 +170,8 @@ def generate() -> dict:
             bad('ASTBuilder.%s not found' % name)
         m = M(fns[name])
         out[name] = m.block(strip_doc(fns[name].body))
+        if m.pending_pop:
+            bad('ASTBuilder.%s: a popped value is never stored into self.current' % name)
     # pinned: the wrappers go through push/pop on the current object
     want = {'_pop': ['assert isinstance(self.current, cls)', 'self.pop(self.current)', 'self.currentAttr = None']}
     got = [ast.unparse(x) for x in strip_doc(fns['_pop'].body)] if '_pop' in fns else None
